@@ -2,7 +2,7 @@
 from . import c06, c11
 PROP = "C20"
 COQ_FILES = ["Machine.v", "Conv.v", "Conv_proofs.v", "Mem.v", "Mem_proofs.v", "Casts.v", "Casts_proofs.v"]
-DRIVERS = [dict(name="casts32", src="casts.cpp", defines=[], ops=["opq", "opqp", "opqs", "opqcb", "opqcbf", "scast", "pcast", "pcastfn"])]
+DRIVERS = [dict(name="casts32", src="casts.cpp", defines=[], ops=["opq", "opqp", "opqs", "opqarg", "opqcb", "opqcbf", "scast", "pcast", "pcastfn"])]
 KINDS = [k for k in c06.KINDS if k != "wchar"]
 GUEST = {"short": "short", "ushort": "ushort", "int": "int", "uint": "uint", "long": "int", "ulong": "uint", "llong": "long", "ullong": "ulong"}
 
@@ -28,6 +28,10 @@ def gen_cases(tier, rng):
         cases.append("opqs %s" % c11.one_value("s1", rng, "lp32", False).replace(";", " "))
     for v in [0, 1, -1, (1 << 31) - 1, -(1 << 31)] + [rng.randrange(-(1 << 31), 1 << 31) for _ in range(20 if q else 200)]:
         cases.append("opqcb %d" % v)
+    # the same value as a tainted and as an opaque ARGUMENT of a sandbox function, incl. values the guest long cannot hold
+    for v in [0, 1, -1, (1 << 31) - 1, -(1 << 31), 1 << 31, -(1 << 31) - 1, (1 << 32) + 5, -(1 << 32), (1 << 63) - 1, -(1 << 63)] + [rng.randrange(-(1 << 33), 1 << 33) for _ in range(20 if q else 200)]:
+        for w in ("T", "O"):
+            cases.append("opqarg %s %d" % (w, v))
     # opaque floating-point and integer parameters / result of a callback (quiet NaNs only: a signalling NaN may be quieted in transit)
     fb = [0, 0x80000000, 0x3f800000, 0x7f7fffff, 0x7f800000, 0x7fc00000, 1] + [rng.randrange(0, 0x7f800000) for _ in range(10 if q else 100)]
     db = [0, 1 << 63, 0x3ff0000000000000, 0x7fefffffffffffff, 0x7ff0000000000000, 0x7ff8000000000000, 1] + [rng.randrange(0, 0x7ff0000000000000) for _ in range(10 if q else 100)]
@@ -61,4 +65,4 @@ RULE = ("verif32 back end. Opaque: byte images (memcpy of the wrapper objects) o
         "both types, compared with the plain static_cast evaluated next to it; sandbox_reinterpret_cast (two target types), sandbox_const_cast, sandbox_static_cast<void*> on pointers held in "
         "application memory and in a sandbox pointer cell: the designated absolute address before and after. Result wrapper types are checked by static_assert in the driver.")
 TRUSTED = ["model coq/Casts.v hand-written (thin: the casts are load + C++ cast + wrap); byte images observed through memcpy of the wrapper objects"]
-ASSUMPTIONS = ["opaque values as invocation arguments are exercised under C11 (form 'o' of the generated programs)", "arrays as opaque values are not exercised"]
+ASSUMPTIONS = ["opaque values as invocation arguments: tainted_opaque<long> here (values inside and outside the guest range), the other types under C11 (form 'o' of the generated programs)", "arrays as opaque values are not exercised"]
